@@ -102,12 +102,11 @@ mutual
       else if mode = S "before" then pure (.s (left ++ S " = new LingoString(" ++ rt.str ++ S " + " ++ left ++ S ")"))
       else pure (.s (left ++ S " = " ++ rt.str))
     | .strOp kind _ start stop of_, _ =>
-      match stop with
-      | .none => do
+      if stop.isNone then do
         let c ← js fm of_ 0
         let a ← js fm start 0
         pure (.s (c.str ++ S "." ++ kind ++ S "[" ++ a.str ++ S "]"))
-      | stop => do
+      else do
         let c ← js fm of_ 0
         let a ← js fm start 0
         let b ← js fm stop 0
@@ -119,11 +118,7 @@ mutual
       | some ty =>
         if op = S "last" then pure (.s (t.str ++ S "." ++ ty ++ S "[\"" ++ o ++ S "\"]"))
         else pure (.s (t.str ++ S "." ++ ty ++ S "." ++ o))
-      | none =>
-        let isMenus := match of_ with
-          | .leaf .localVar n _ => n == Name.s (S "menus")
-          | _ => false
-        pure (.s ((if isMenus then S "_menuBar.menu" else t.str) ++ S "." ++ o))
+      | none => pure (.s ((if of_.isMenusVar then S "_menuBar.menu" else t.str) ++ S "." ++ o))
     | .propAcc _ obj prop, ind => do
       let t ← js fm obj ind
       if t == Name.s (S "tell_obj") then pure (.s prop) else pure (.s (t.str ++ S "." ++ prop))
@@ -152,9 +147,8 @@ mutual
     | .toDict _ _, _ => .error .type
     | .stmt _ code, ind => do
       let t ← js fm code ind
-      let wr := match code with | .callFn _ _ _ _ _ wr => wr | _ => false
       let ts ← t.asStr
-      let ts := if wr then S "fn_call(" ++ ts ++ S ")" else ts
+      let ts := if code.withResult then S "fn_call(" ++ ts ++ S ")" else ts
       if endsWith ts (S "}") then pure (.s (indentOf ind ++ ts ++ S "\n"))
       else pure (.s (indentOf ind ++ ts ++ S ";\n"))
     | .callFn name _ .none _ inTell _, _ => do
@@ -223,9 +217,9 @@ mutual
   def jsStrs (fm : Bool) (gv : Bool) : List Node → Nat → R (List Str)
     | [], _ => .ok []
     | [x], ind =>
-      match gv, x with
-      | true, .sym n _ _ => .ok [S "_global." ++ n.str]
-      | _, x => do let t ← js fm x ind; pure [t.str]
+      match (if gv then x.symName? else none) with
+      | some n => .ok [S "_global." ++ n.str]    -- GlobalVariable(sym.name).generate_js
+      | none => do let t ← js fm x ind; pure [t.str]
     | x :: y :: r, ind => do
       let t ← js fm x ind
       let ts ← jsStrs fm gv (y :: r) ind
